@@ -12,6 +12,7 @@ import NdonnxVerif.Driver.Setitem
 import NdonnxVerif.Driver.ReduceVal
 import NdonnxVerif.Driver.Search
 import NdonnxVerif.Driver.TGraph
+import NdonnxVerif.Driver.StaticShape
 /-! Line-protocol driver: one request per line on stdin, one answer per line on stdout. -/
 open Ndx.Drv
 
@@ -22,6 +23,7 @@ def dispatch (line : String) : String :=
     match cmd with
     | "bshape" => cmdBshape args
     | "tg_render" => cmdTgRender args
+    | "static_getitem" => cmdStaticGetitem args
     | "tg_eval" => cmdTgEval args
     | "tg_parse" => cmdTgParse args
     | "searchsorted" => cmdSearchsorted args
